@@ -41,6 +41,7 @@ LEVEL = {
                  "evaluation of the handle's construction and closing over an object model (with / without asend-athrow; "
                  "run-time generator state unknown)",
 }
+LEVEL["decided"] += ' (R07.7) subclasses of the borrowed handle override nothing but aclose/__repr__ (the tables hold for them unchanged).'
 
 BORROW_CLASSES = ["asynctools._BorrowedAsyncIterator", "asynctools._ScopedAsyncIterator"]
 FORWARDED = {"asend", "athrow"}
